@@ -8,6 +8,8 @@ CONFIGS = {
     "ka2": {"tla": "Cfg_ka2", "assocs": [{"addr": 1024, "kind": "ka"}, {"addr": 1025, "kind": "quiet"}]},
     "tsync1": {"tla": "Cfg_tsync1", "assocs": [{"addr": 1024, "kind": "full", "tsync": "nonlan"}]},
     "tlan1": {"tla": "Cfg_tlan1", "assocs": [{"addr": 1024, "kind": "full", "tsync": "lan"}]},
+    "noclock1": {"tla": "Cfg_noclock1", "assocs": [{"addr": 1024, "kind": "quiet"}], "noclock": True},
+    "tnoclock1": {"tla": "Cfg_tnoclock1", "assocs": [{"addr": 1024, "kind": "full", "tsync": "nonlan"}], "noclock": True},
     "quiet3": {"tla": "Cfg_quiet3", "assocs": [{"addr": 1024, "kind": "quiet"}, {"addr": 1025, "kind": "quiet"},
                                                {"addr": 1026, "kind": "quiet"}]},
 }
@@ -29,8 +31,10 @@ def assoc_cfg(a):
 
 
 def harness_cfg(name):
-    return {"maddr": 1, "assocs": [assoc_cfg(a) for a in CONFIGS[name]["assocs"]], "enabled": True,
-            "time_base": 1600000000000}
+    cfg = {"maddr": 1, "assocs": [assoc_cfg(a) for a in CONFIGS[name]["assocs"]], "enabled": True}
+    if not CONFIGS[name].get("noclock"):
+        cfg["time_base"] = 1600000000000
+    return cfg
 
 
 # one-header CROB command with a one-byte index: objects = 0c 01 17 01 <ix> <code> <count> <on x4> <off x4> <status>
